@@ -9,6 +9,9 @@
 #include "cmd_mem.h"
 #include "cmd_fileio.h"
 #include "cmd_det.h"
+#include "cmd_util.h"
+#include "cmd_listing.h"
+#include "cmd_macro.h"
 #include "cmd_link.h"
 
 static void register_all()
@@ -22,5 +25,8 @@ static void register_all()
   register_mem();
   register_fileio();
   register_det();
+  register_util();
+  register_listing();
+  register_macro();
   register_link();
 }
